@@ -610,7 +610,7 @@ func TestCheck(t *testing.T) {
 			return
 		}
 	}
-	r.Search(t, "views", 0, r.N(96, 1440), func(rt *rapid.T) (any, *report.Failure) {
+	r.Search(t, "views", 0, r.N(96, 1100), func(rt *rapid.T) (any, *report.Failure) {
 		return sweep(r, rt, genView(rt, viewOpts{tour: -1}), -1)
 	})
 }
